@@ -33,12 +33,32 @@ pub fn fix_output(object: bool) -> Vec<u8> {
   out
 }
 
+/// how the fixer's template classifies `$T` when T is a transform key:
+/// 0 = captured node, 1 = multi capture, 2 = transformed variable
+pub fn template_kind_of_t(object: bool) -> u8 {
+  use ast_grep_config::verif_hooks::fixer::template_parts;
+  let env = DeserializeEnv::new(HL('$'));
+  let mut tr = SMap::new();
+  tr.insert("T".to_string(), substring("$A", None, None));
+  let ser = if object { fix_config("$T", None, None) } else { SerializableFixer::Str("$T".to_string()) };
+  let tr = Some(tr);
+  let fixer = Fixer::parse(&ser, &env, &tr).expect("valid fix");
+  let (frags, vars) = template_parts(&fixer);
+  let k = if vars.len() == 1 && vars[0].1 == "T" { vars[0].0 } else { 255 };
+  std::mem::forget(frags);
+  std::mem::forget(vars);
+  std::mem::forget(fixer);
+  std::mem::forget(tr);
+  k
+}
+
 #[cfg(test)]
 mod tests {
   use super::*;
   #[test]
   fn string_form_substitutes() {
     assert_eq!(fix_output(false), b"v".to_vec());
+    assert_eq!(template_kind_of_t(false), 2);
   }
 }
 
@@ -57,6 +77,20 @@ mod proofs {
     assert!(r.is_err(), "a `replace` transformation with an invalid regex was accepted at load time");
     std::mem::forget(r);
     std::mem::forget(t);
+  }
+
+  /// cheaper form of the same clause: both forms of `fix` must classify `$T` as the
+  /// transformed variable (only then is it substituted by the transformed value)
+  #[kani::proof]
+  #[kani::unwind(10)]
+  #[kani::stub(regex::Regex::new, crate::stub_regex_new)]
+  fn c12_fix_forms_template_kind() {
+    let object: bool = kani::any();
+    #[cfg(feature = "kf_object_fix_ignores_transform")]
+    kani::assume(!object);
+    let k = template_kind_of_t(object);
+    kani::cover!(k == 2);
+    assert!(k == 2, "a transformed variable used in `fix` is not treated as transformed");
   }
 
   #[kani::proof]
